@@ -16,13 +16,6 @@ def encLoop (mult : Int) : Nat → Nat → Int → Int → Int
 /-- `convertHorizontalIDToQuadkey("z/x/y")` -/
 def qkEnc (z x y : Int) : Int := encLoop 2 z.toNat 0 y (encLoop 1 z.toNat 0 x 0)
 
-/-- base-4 digits, most significant first, no leading zeros (`strconv.FormatInt(n, 4)`), with fuel -/
-def digits4Aux : Nat → Nat → List Nat
-  | 0, _ => []
-  | fuel + 1, n => if n < 4 then [n] else digits4Aux fuel (n / 4) ++ [n % 4]
-
-def digits4 (n : Nat) : List Nat := digits4Aux 64 n
-
 /-- one step of the digit walk of `convertQuadkeyToHorizontalID` -/
 def decStep (p : Int × Int) (d : Nat) : Int × Int :=
   (2 * p.1 + (if d = 1 ∨ d = 3 then 1 else 0), 2 * p.2 + (if d = 2 ∨ d = 3 then 1 else 0))
